@@ -94,6 +94,61 @@ EDITS = {
     'copy-to-dict': (replace_text('symbolic', """                    values = copy(first_value)
                     values.update(second_value)""", """                    values = dict(first_value)
                     values.update(second_value)"""), ['C01', 'C02']),
+    'rename-bind-child-vars': (rename_local('symbolic', 'Variable._bind_child_vars_', 'new_bindings', 'extended'), ['C11', 'C19']),
+    'rename-bind-child-vars-2': (rename_local('symbolic', 'Variable._bind_child_vars_', 'remaining', 'rest'), ['C11']),
+    'rename-bind-unbound': (rename_local('symbolic', 'ForAll._bind_unbound_variables_', 'variable', 'free_var'), ['C10']),
+    'rename-forall-bound-val': (rename_local('symbolic', 'ForAll._evaluate__', 'bound_val', 'completed'), ['C10']),
+    'rename-kwargs-expression-row': (rename_local('symbolic', 'Variable._evaluate_kwargs_expression_', 'v', 'row'), ['C04']),
+    'rename-replay-locals': (rename_local('symbolic', 'BinaryOperator.yield_final_output_from_cache', 'output', 'cached_row'), ['C05']),
+    'replay-continue-folded': (replace_text('symbolic', """            if is_false and self._is_duplicate_output_(output):
+                continue
+            yield output
+        if not entered:
+            cache_match_count.values[self._node_.name] += 1
+        cache_enter_count.values[self._node_.name] = cache.enter_count
+        cache_search_count.values[self._node_.name] = cache.search_count
+
+    @staticmethod""", """            if not (is_false and self._is_duplicate_output_(output)):
+                yield output
+        if not entered:
+            cache_match_count.values[self._node_.name] += 1
+        cache_enter_count.values[self._node_.name] = cache.enter_count
+        cache_search_count.values[self._node_.name] = cache.search_count
+
+    @staticmethod"""), ['C05']),
+    'bind-unbound-else-branch': (replace_text('symbolic', """            if variable._id_ not in result:
+                for value in variable._evaluate__(copy(result)):
+                    yield from self._bind_unbound_variables_({**result, **value}, variables)
+                return
+        yield result""", """            if variable._id_ in result:
+                continue
+            for value in variable._evaluate__(copy(result)):
+                yield from self._bind_unbound_variables_({**result, **value}, variables)
+            return
+        yield result"""), ['C10']),
+    'union-guard-reordered': (replace_text('symbolic', """        if is_caching_enabled() and not self._selects_conclusions_ and self._cache_.check(sources):
+            yield from self.yield_final_output_from_cache(sources)
+            return
+
+        # constrain left values by available sources
+        left_prev = self.left._eval_parent_
+        self.left._eval_parent_ = self
+        try:
+            left_values = self.left._evaluate__(sources, yield_when_false=self._yield_when_false_)
+
+            for left_value in left_values:
+                output = copy(sources)""", """        if not self._selects_conclusions_ and is_caching_enabled() and self._cache_.check(sources):
+            yield from self.yield_final_output_from_cache(sources)
+            return
+
+        # constrain left values by available sources
+        left_prev = self.left._eval_parent_
+        self.left._eval_parent_ = self
+        try:
+            left_values = self.left._evaluate__(sources, yield_when_false=self._yield_when_false_)
+
+            for left_value in left_values:
+                output = copy(sources)"""), ['C05']),
     'hybrid-new-else-dropped': (replace_text('predicate', """        if in_symbolic_mode():
             return symbolic_new(symbolic_cls, *args, **kwargs)
         else:
